@@ -10,6 +10,7 @@ import ast
 
 from ..astutil import (
     ancestors,
+    deref,
     calls_in,
     dotted,
     enclosing_stmt,
@@ -275,6 +276,95 @@ def _is_called_or_entered(n):
     return isinstance(p, ast.Call) and p.func is n
 
 
+def r9_dedicated_pools_no_blocking(ctx):
+    """(i) long-running nested workers (chunk producer, chunk loaders, file writers, snapshot loaders) run on executors created by
+    the command itself, never on the shared backend executor whose N threads also carry the backend calls they wait for;
+    (ii) nothing on the event-loop side of Repository waits for a pool to drain (Executor.shutdown() blocks by default)."""
+    corpus = ctx.corpus
+    cls = repo_cls(corpus)
+    n = 0
+    for m in cls.methods.values():
+        nested = {f.name for f in m.all_nested()}
+        if not nested:
+            continue
+        for c in calls_in(m.node, local=False):
+            if not (isinstance(c.func, ast.Attribute) and c.func.attr in ('run_in_executor', 'submit')):
+                continue
+            if c.func.attr == 'run_in_executor':
+                ex, fn_arg = (c.args[0] if c.args else None), (c.args[1] if len(c.args) > 1 else None)
+            else:
+                ex, fn_arg = c.func.value, (c.args[0] if c.args else None)
+            if not (isinstance(fn_arg, ast.Name) and fn_arg.id in nested):
+                continue
+            n += 1
+            owner = corpus.func_of_node(m.module, c) or m
+            e = deref(m.node, ex) if isinstance(ex, ast.Name) else ex
+            local_pool = isinstance(e, ast.Call) and (dotted(e.func) or '').endswith('ThreadPoolExecutor')
+            if not local_pool and isinstance(ex, ast.Name):
+                # bound by `with <helper that creates the pools>() as (a, b)`
+                for w_ in ast.walk(m.node):
+                    if isinstance(w_, (ast.With, ast.AsyncWith)):
+                        for it in w_.items:
+                            ce = deref(m.node, it.context_expr) if isinstance(it.context_expr, ast.Name) else it.context_expr
+                            if it.optional_vars is not None and any(isinstance(x, ast.Name) and x.id == ex.id for x in ast.walk(it.optional_vars)) and isinstance(ce, ast.Call):
+                                d_ = dotted(ce.func) or ''
+                                hm = corpus.method(cls, d_[5:]) if d_.startswith('self.') else None
+                                if hm is not None and any(isinstance(q, ast.Call) and (dotted(q.func) or '').endswith('ThreadPoolExecutor') for q in ast.walk(hm.node)):
+                                    local_pool = True
+            ctx.check(
+                local_pool,
+                'C09.R9',
+                f'{func_label(m)}|worker-on-dedicated-pool:{fn_arg.id}',
+                loc(m, c),
+                f'{m.name}: `{fn_arg.id}` runs on a thread pool created by this command',
+                f'{m.name}: `{fn_arg.id}` is started on `{src(ex, 50) if ex is not None else None}`, not on a pool of its own: it occupies a thread of a pool that also has to run the backend calls it waits for '
+                '- with concurrency 1 (or enough busy workers) the command deadlocks',
+            )
+    ctx.floor('C09.R9', 'nested workers handed to executors', n, 3)
+    for m in corpus.module('repository').all_functions:
+        for c in calls_in(m.node):
+            if isinstance(c.func, ast.Attribute) and c.func.attr == 'shutdown':
+                w = kwarg(c, 'wait')
+                ok = w is not None and isinstance(w, ast.Constant) and w.value is False
+                ctx.check(
+                    ok,
+                    'C09.R9',
+                    f'{func_label(m)}|no-blocking-shutdown',
+                    loc(m, c),
+                    f'{m.qual}: executor shutdown does not wait',
+                    f'{m.qual}: `{src(c, 50)}` waits for the pool to drain; on the event-loop thread this blocks the loop that the pending workers need to obtain their slots - after a failure the command hangs instead of reporting the error',
+                )
+
+
+def r5b_completion_flag(ctx, rule='C09.R5'):
+    """"queue empty or producer finished" is evaluated by the upload workers on the event loop: the "finished" flag must not
+    be something another thread can flip between the two tests (a threading.Event set by the producer thread)."""
+    corpus = ctx.corpus
+    snap = corpus.func('repository', 'Repository.snapshot')
+    events = set()
+    for n in walk_local(snap.node):
+        if isinstance(n, ast.Assign) and isinstance(n.value, ast.Call) and (dotted(n.value.func) or '').endswith('Event'):
+            events |= {t.id for t in n.targets if isinstance(t, ast.Name)}
+    for w in snap.all_nested():
+        if not w.is_async:
+            continue
+        for n in walk_local(w.node):
+            if isinstance(n, ast.While):
+                for c in calls_in(n.test):
+                    if isinstance(c.func, ast.Attribute) and c.func.attr == 'is_set' and isinstance(c.func.value, ast.Name) and c.func.value.id in events:
+                        nm = c.func.value.id
+                        # set by code that does not run on the event loop (a plain nested function handed to an executor / thread)
+                        setters = [f for f in snap.all_nested() if not f.is_async and any(isinstance(x, ast.Call) and isinstance(x.func, ast.Attribute) and x.func.attr == 'set' and isinstance(x.func.value, ast.Name) and x.func.value.id == nm for x in walk_local(f.node))]
+                        if setters and any(isinstance(q, ast.Call) and isinstance(q.func, ast.Attribute) and q.func.attr in ('empty', 'qsize') for q in calls_in(n.test)):
+                            ctx.fail(
+                                rule,
+                                f'{func_label(snap)}|completion-flag-is-loop-future',
+                                loc(w, n),
+                                f'`{nm}.is_set()` polled by the worker loop together with the queue state is a threading.Event set by `{setters[0].name}` on another thread: it can flip between the '
+                                '`empty()` and the `is_set()` test, so a worker can leave with the last chunks still queued (they are never uploaded - silent data loss)',
+                            )
+
+
 def r5_abort(ctx):
     corpus = ctx.corpus
     snap = corpus.func('repository', 'Repository.snapshot')
@@ -317,6 +407,7 @@ def r5_abort(ctx):
                             f'the worker loop polls `{nm}.done()` of an event-loop future (it can only flip between coroutine steps, so `queue empty or done` is evaluated atomically)',
                             f'`{nm}.done()` polled by the worker loop belongs to a thread-side future (not loop.run_in_executor): it can flip between the `empty()` and `done()` checks and a worker exits with the last chunk still queued',
                         )
+    r5b_completion_flag(ctx, 'C09.R5')
     ctx.floor('C09.R5', 'await of the producer future', len(p_stmts))
     # worker join: awaited statement that applies a nested function referencing upload_stream
     workers = {f.name for f in snap.nested.values() if any(isinstance(n, ast.Attribute) and n.attr == 'upload_stream' for n in walk_local(f.node))}
@@ -585,6 +676,7 @@ def run(ctx):
     r5_abort(ctx)
     r6_locks(ctx)
     r8_tokens(ctx)
+    r9_dedicated_pools_no_blocking(ctx)
     from .c01 import digest_cleared_after_writes
 
     digest_cleared_after_writes(ctx, 'C09.R7')
